@@ -77,6 +77,14 @@ def acc_append(a, x):
     return a
 
 
+def acc_nested(a, x):         # the seed [[]] given BY VALUE: a container that holds the mutable part one level down
+    a[0].append(x)
+    return a
+
+
+def term_nested(a): return list(a[0])
+
+
 def clipf(lo, hi):
     if lo is None and hi is None:
         return lambda i: i
@@ -284,7 +292,8 @@ fold('scan_minmax', INTLIKE, 'any', lambda n, e: rs.ops.scan(acc_minmax, (0, 0),
 SCALAR = INTLIKE + ('optint', 'float', 'pair')
 # streaming scan_list only over scalars: stacking it squares the output size per level
 fold('scan_list', '*', lambda t, n: listof(t) if (n[2] or t in SCALAR) else None,
-     lambda n, e: rs.ops.scan(acc_append if n[2] else acc_concat, [] if n[1] == 'value' else list, reduce=n[2]),
+     lambda n, e: (rs.ops.scan(acc_nested, [[]], reduce=True, terminator=term_nested) if n[1] == 'nested' and n[2] else
+                   rs.ops.scan(acc_append if n[2] else acc_concat, list if n[1] == 'factory' else [], reduce=n[2])),
      lambda n, c: M.Scan(acc_append if n[2] else acc_concat, list, n[2]), reduce_pos=2)
 # the streaming MUTATING variant (one live list re-emitted for every item): never drawn by the generators; C01 appends it,
 # followed by to_list, to pipelines without take / first / tee, where both execution modes emit at the same moments
